@@ -162,13 +162,15 @@ def check(ctx):
 
     dry_outputs = []
     for n in b.nodes('output'):
-        if any(g.dominates(x, n.id) for x in is_dry_nodes):
+        if any(g.dominates(x, n.id) for x in is_dry_nodes) or \
+                (is_dry_nodes and cut_c(b, g.entry, n.id, is_dry_nodes)):
             dry_outputs.append(n)
 
     for d in deletes:
         path = d.data['roles']['path']
         ctx.ob('R14.1', 'DELETE is dominated by "--dry-run is false"',
-               any(g.dominates(x, d.id) for x in not_dry), node=d,
+               any(g.dominates(x, d.id) for x in not_dry) or
+               (bool(not_dry) and cut_c(b, g.entry, d.id, not_dry)), node=d,
                message='a DELETE is reachable while --dry-run is set (or its guard is gone)')
         ok = cut_c(b, g.entry, d.id, set(not_inter) | set(consent))
         ctx.ob('R14.3', 'every path to a DELETE passes "not interactive" or "reply starts '
